@@ -131,24 +131,6 @@ func c07Load(data []byte, cs c07Case) c07Loaded {
 	return c07Loaded{cs, loadWith(cs.Loader, s), s, data}
 }
 
-// boundedBuf is an io.Writer that stops accepting data beyond a limit (keeps the read-out bounded).
-type boundedBuf struct {
-	b     []byte
-	limit int64
-	over  bool
-}
-
-var errBoundedBuf = errors.New("read-out limit reached")
-
-func (w *boundedBuf) Write(p []byte) (int, error) {
-	if int64(len(w.b)+len(p)) > w.limit {
-		w.over = true
-		return 0, errBoundedBuf
-	}
-	w.b = append(w.b, p...)
-	return len(p), nil
-}
-
 // replayed carries an already drained stream (bytes, then its terminal error).
 type replayed struct {
 	r   *bytes.Reader
@@ -295,6 +277,10 @@ func runC07(r *core.Run) {
 	for _, s := range smallSeeds(r.Seed) {
 		if s.Truth.Format != "" && len(s.Bytes) > 0 && !strings.HasPrefix(s.Name, "real:") {
 			seeds = append(seeds, genFile{s.Name + "+trailer", append(append([]byte{}, s.Bytes...), []byte("--- 36 bytes that follow the image ---")...), s.Truth})
+			// bytes in front of the image (line ends, NULs, fill bytes, a byte-order mark): whether or
+			// not a loader is lenient about them, the stream starts with them
+			lead := [][]byte{[]byte("\r\n"), {0, 0, 0}, {0xFF, 0xFF}, []byte("\xef\xbb\xbf"), []byte(" \n\t")}[len(seeds)%5]
+			seeds = append(seeds, genFile{s.Name + fmt.Sprintf("+leader%x", lead), append(append([]byte{}, lead...), s.Bytes...), imggen.Truth{Format: s.Truth.Format}})
 		}
 	}
 	if r.Thorough() {
